@@ -473,19 +473,38 @@ class World:
         def released():
             # a unit's entitlement to run is consumed when it is RELEASED (todo -> doing): whatever is
             # reported new after that makes it pending again and entitles the next run
+            before = {tag: set(n.get('todo')) for tag, n in self.nodes.items()}
             jobs = batch()
             for j in jobs:
                 for t in sorted(j.get('do')):
                     if (j.tag, t) not in self.cause:
-                        self.problems.append(('C02:e2e-needless-rerun',
-                                              f'{j.tag}[{t}] was released although it was not requested and none '
-                                              f'of its declared inputs was reported new since its last release'))
+                        self.flag('C02', 'e2e-needless-rerun',
+                                  f'{j.tag}[{t}] was released although it was not requested and none '
+                                  f'of its declared inputs was reported new since its last release')
                     self.cause.discard((j.tag, t))
+                    # C03: one execution of a unit at a time
+                    if (j.tag, t) in self.flying:
+                        self.flag('C03', 'e2e-double-release', f'{j.tag}[{t}] released again while it is still executing')
+                    # C01: nothing upstream pending or executing for this target (or an all-targets run)
+                    for a in sorted(self.upstream[j.tag]):
+                        busy = before[a] | {u for (x, u) in self.flying if x == a}
+                        if t in busy or '__all__' in busy or (t == '__all__' and busy):
+                            self.flag('C01', 'e2e-release-with-busy-upstream',
+                                      f'{j.tag}[{t}] released while upstream {a} has {sorted(busy)} pending/executing')
+                    self.flying.add((j.tag, t))
             return jobs
 
         released.__wrapped__ = batch
         P.set(S, 'next_job_batch', released)
         self.cause = set()       # (tag, target) with a reason to run: requested or an input reported new
+        self.flying = set()      # released and not yet answered (the harness's own count)
+        self.upstream = {}
+        for i, a in enumerate(algs):
+            up = set()
+            for j, _v in a['inputs']:
+                up |= {tag_of(algs[j])} | self.upstream[tag_of(algs[j])]
+            self.upstream[tag_of(a)] = up
+        self.want = {'C02'}
         self.executed = []       # (tag, target, run id, [new value names])
         self.failed = []         # (tag, target, success flag of the answer | None when no answer came)
         self.worker_deaths = []  # (tag, target, exception that left cluster.execute)
@@ -537,6 +556,10 @@ class World:
     def note(self, op, **obs):
         self.trace.append(op)
         self.obs.append(dict(obs, snap=self.snapshot()))
+
+    def flag(self, prop, sig, what):
+        if prop in self.want:
+            self.problems.append((f'{prop}:{sig}', what))
 
     def units_of(self, tag, target):
         """the units of `tag` a new value / request for `target` concerns"""
@@ -622,6 +645,15 @@ class World:
             hand = self.F.Hand(collections.namedtuple('IPV4', ['host', 'port'])('sim', 1))
             hand.transport = _Wire([])
             hand.dataReceived(raw)
+        self.flying.discard(unit)
+        # C03: the result is applied exactly once: one history entry for the unit, and it is no longer executing
+        mine = [e for e in self.chronicle[n_hist:] if e['task'] == m.jobid and e['target'] == unit[1]]
+        if raw and len(mine) != 1:
+            self.flag('C03', 'e2e-result-not-applied-once',
+                      f'the answer for {m.jobid}[{unit[1]}] (run {m.runid}) wrote {len(mine)} history entries')
+        if raw and unit[1] in self.nodes[m.jobid].get('doing') and unit not in self.flying:
+            self.flag('C03', 'e2e-result-not-applied-once',
+                      f'{m.jobid}[{unit[1]}] was answered but is still listed as executing')
         if self.on_result:
             self.on_result(self, m, r, before, self.snapshot(), self.chronicle[n_hist:])
         self.note(('reply', m.jobid, m.target or '__all__', m.runid))
@@ -727,7 +759,7 @@ class World:
 
 
 # ---------------------------------------------------------------------------- one scenario
-def run_scenario(store, sc, seed=0, model=None, probe=None):
+def run_scenario(store, sc, seed=0, model=None, probe=None, want=None):
     """sc = {'algs': [...], 'targets': [...], 'bumps': [[root tag, target], ...] or [[...], [...]] groups}
     returns (problems, stats)"""
     import random
@@ -737,6 +769,8 @@ def run_scenario(store, sc, seed=0, model=None, probe=None):
     logging.disable(logging.CRITICAL)  # "New run ID ..." is logged at critical level
     algs, targets = sc['algs'], sc['targets']
     w = World(store, algs, targets, random.Random(f'{seed}:order'), bool(sc.get('real_metrics')))
+    if want:
+        w.want = set(want)
     stats = collections.Counter()
     try:
         w.later_bumps = [[tuple(x) for x in (b if b and isinstance(b[0], list) else [b])] for b in sc['bumps']]
@@ -755,9 +789,20 @@ def run_scenario(store, sc, seed=0, model=None, probe=None):
             stats['executions'] += len(w.executed) - n0
             stats['phases'] += 1
             if not quiet:
-                w.problems.append(('C02:e2e-no-quiescence',
-                                   f'after {what} {b}: still pending {w.pending()} / queued {len(w.tasks)}'))
+                for prop in ('C02', 'C04'):
+                    w.flag(prop, 'e2e-no-quiescence',
+                           f'after {what} {b}: still pending {w.pending()} / queued {len(w.tasks)}')
                 break
+            if w.S.que or w.S.view_todo() or w.S.view_doing() or w.F._busy:  # pylint: disable=protected-access
+                w.flag('C04', 'e2e-idle-not-idle',
+                       f'nothing is pending or executing but queue={[j.tag for j in w.S.que]} '
+                       f'view_todo={w.S.view_todo()} view_doing={w.S.view_doing()} busy={w.F._busy}')  # pylint: disable=protected-access
+            if 'C02' not in w.want:
+                if not w.later_bumps:
+                    break
+                what, b = 'bump', w.later_bumps.pop(0)
+                w.apply_bump(b)
+                continue
             want = from_scratch(algs, targets, w.epochs)
             got = w.stored()
             w.note(('check',), stored=dict(got), want=dict(want))
@@ -910,7 +955,7 @@ SMALL = {
 def _small_task(args):
     """one node of the search tree: replay the prefix on a fresh world, list what can happen next, then let
     everything finish and compare the store with a from-scratch run"""
-    name, prefix, seed, max_bumps, want_model = args
+    name, prefix, seed, max_bumps, want_model, want = args
     from .c08_store import Store
     global _SMALL_STORE  # pylint: disable=global-statement
     try:
@@ -936,22 +981,22 @@ def _small_task(args):
                 avail.append(a)
 
     model = [] if want_model else None
-    problems, stats = run_scenario(store, _norm(sc), seed, model=model, probe=probe)
+    problems, stats = run_scenario(store, _norm(sc), seed, model=model, probe=probe, want=want)
     return name, prefix, avail, problems, (model[0] if model else None), stats['executions']
 
 
-def exhaustive(ctx, res, depth=6, max_bumps=2):
+def exhaustive(ctx, res, depth=6, max_bumps=2, want=None):
     """every sequence of {new source data for a root, dispatch tick, let one waiting unit run} up to `depth`
     on three small engines, each followed by a run to quiescence"""
     import multiprocessing
     from . import c02_model
 
-    lean = bool(ctx.get('lean'))
+    lean = bool(ctx.get('lean')) and not want
     frontier = [(name, ()) for name in SMALL]
     cases = []
     with multiprocessing.Pool(16) as pool:
         for level in range(depth + 1):
-            jobs = [(name, prefix, ctx['seed'], max_bumps, lean) for name, prefix in frontier]
+            jobs = [(name, prefix, ctx['seed'], max_bumps, lean, want) for name, prefix in frontier]
             nxt = []
             for name, prefix, avail, problems, case, execs in pool.imap_unordered(_small_task, jobs, chunksize=8):
                 sc = {'algs': SMALL[name][0], 'targets': SMALL[name][1], 'bumps': [],
@@ -971,6 +1016,42 @@ def exhaustive(ctx, res, depth=6, max_bumps=2):
         for c, o in zip(cases, outs):
             c02_model.compare(res, c, o)
             res.traces += 1
+
+
+def run_monitors(ctx, res, want):
+    """the end-to-end scenarios for the scheduling properties (C01, C03, C04): real scheduler, farm, worker
+    (cluster.execute), store and run ids from the real db.next(); only the monitors of `want` report"""
+    from .c08_store import Store
+    store = Store()
+    store.install_loopback()
+    r = common.rng(ctx['seed'], 'e2e-' + '-'.join(sorted(want)))
+    thorough = ctx['tier'] == 'thorough' or ctx.get('escalate')
+    scenarios = [overlap_shape(), slow_sibling_shape(), aspect_shape(), dict(aspect_shape(), overlap=0.7, hold=0.4)]
+    for i in range(40 if thorough else 4):
+        sc = gen_scenario(r, small=not thorough, aspects=i % 2 == 1)
+        scenarios.append(dict(sc, overlap=0.6 if i % 2 == 0 else 0, hold=0.4 if i % 3 else 0))
+    for sc in scenarios:
+        problems, stats = run_scenario(store, _norm(sc), ctx['seed'], want=want)
+        for sig, what in problems:
+            res.hit(sig, what, {'kind': 'e2e', 'scenario': sc, 'seed': ctx['seed'], 'want': sorted(want)})
+        res.case(('e2e', tuple(sorted(want)), repr(sc)), nontrivial=stats['executions'] > len(sc['algs']))
+        res.count('e2e:scenario')
+        res.count('e2e:unit-executions', stats['executions'])
+        res.count('e2e:overlaps', stats['overlaps'])
+    if thorough:
+        exhaustive(ctx, res, depth=6, want=want)
+    res.assumptions.append('end to end: the real pl.worker.cluster.execute on in-memory sockets, real shelve store '
+                           'through the loop-back; fsm, chronicle file, md5sum/sha1sum sub-processes are replaced')
+
+
+def replay_monitors(inp, res, want):
+    from .c08_store import Store
+    store = Store()
+    store.install_loopback()
+    inp = inp.get('input', inp)
+    problems, _stats = run_scenario(store, _norm(inp['scenario']), inp.get('seed', 0), want=want)
+    for sig, what in problems:
+        res.hit(sig, what, inp)
 
 
 def _norm(sc):
